@@ -13,7 +13,7 @@ PROP = {
     "assumptions": [],
     # same bodies as C01 (different failure classes are attributed, DESIGN 2.2) + C02-only harnesses
     "harnesses": list(c01.PROP["harnesses"]) + [
-        H("c02_fmt_len_error_small", "c02", unwind=8, bounds="all layers / length sources, numbers below 1000 (both message forms)", encodes=["<LenError as Display/Debug>::fmt, Layer Display"]),
+        H("c02_fmt_len_error_small", "c02", unwind=20, bounds="all layers / length sources, numbers below 1000 (both message forms)", encodes=["<LenError as Display/Debug>::fmt, Layer Display"]),
         H("c02_fmt_content_ip_version", "c02", unwind=8, bounds="every value", encodes=["ip::HeaderError::UnsupportedIpVersion Display/Debug"]),
         H("c02_fmt_content_ip_ihl", "c02", unwind=8, bounds="every value", encodes=["ip::HeaderError::Ipv4HeaderLengthSmallerThanHeader Display/Debug"]),
         H("c02_fmt_content_ipv4_version", "c02", unwind=8, bounds="every value", encodes=["ipv4::HeaderError::UnexpectedVersion Display/Debug"]),
@@ -30,7 +30,7 @@ PROP = {
         H("c02_fmt_packet_err_tcp", "c02", unwind=8, bounds="every value", encodes=["packet::SliceError::Tcp Display/Debug"]),
         H("c02_fmt_value_too_big_u8", "c02", unwind=8, bounds="every value / value type", encodes=["ValueTooBigError<u8> Display/Debug, ValueType Display"]),
         H("c02_fmt_value_too_big_u16", "c02", unwind=8, bounds="every value / value type", encodes=["ValueTooBigError<u16> Display/Debug"]),
-        H("c02_fmt_udp", "c02", unwind=8, bounds="9 byte inputs", encodes=["Debug of UdpSlice, UdpHeader"]),
+        H("c02_fmt_udp", "c02", unwind=12, bounds="9 byte inputs", encodes=["Debug of UdpSlice, UdpHeader"]),
         H("c02_fmt_ether_type", "c02", unwind=8, bounds="all 2^16 values", encodes=["<EtherType as Debug>::fmt"]),
         H("c02_fmt_ip_number", "c02", unwind=8, bounds="all 2^8 values", encodes=["<IpNumber as Debug>::fmt, keyword_str, protocol_str"]),
         H("c02_fmt_sll_packet_type", "c02", unwind=8, bounds="all valid values", encodes=["<LinuxSllPacketType as Debug>::fmt"]),
@@ -42,7 +42,7 @@ PROP = {
         H("c02_fmt_eth2_slice", "c02", tier="thorough", timeout=3000, unwind=8, bounds="15 byte inputs", encodes=["<Ethernet2Slice as Debug>::fmt"]),
         H("c02_fmt_linux_nonstandard", "c02", tier="thorough", timeout=3000, unwind=8, bounds="all valid values", encodes=["<LinuxNonstandardEtherType as Debug>::fmt"]),
         H("c02_fmt_arp_hw_id", "c02", tier="thorough", timeout=3000, unwind=8, bounds="all 2^16 values", encodes=["<ArpHardwareId as Debug>::fmt"]),
-        H("c02_fmt_sll_slice", "c02", tier="thorough", timeout=3000, unwind=8, bounds="17 byte inputs", encodes=["<LinuxSllSlice as Debug>::fmt"]),
+        H("c02_fmt_sll_slice", "c02", tier="thorough", timeout=3000, unwind=20, bounds="17 byte inputs", encodes=["<LinuxSllSlice as Debug>::fmt"]),
         H("c02_ext_iter_step", "c02", unwind=5, timeout=1500, bounds="first next() on every chain decoded (strict or lax) from <= 24 bytes", encodes=["Ipv6ExtensionSliceIter::next"]),
         H("c02_skip_all_exts", "c02", unwind=5, timeout=1500, bounds="every first header x every byte string of length 0..=24", encodes=["Ipv6Header::skip_all_header_extensions_in_slice", "Ipv6Header::skip_header_extension_in_slice"]),
     ],
